@@ -166,7 +166,7 @@ func (s *IndexedState) Load(ctx *Context) error {
 		if err := json.Unmarshal(bs, &x); err != nil {
 			return err
 		}
-		_, err := s.add(ctx, id, x)
+		_, _, err := s.add(ctx, id, x)
 		if err != nil {
 			_, is := err.(*ExpiredError)
 			if is {
@@ -270,15 +270,11 @@ func (s *IndexedState) Add(ctx *Context, id string, x Map) (string, error) {
 	s.slock(ctx, false)
 	// (The rule cache is guarded by the state's lock.)
 	delete(s.cachedRules, id)
-	id, err := s.add(ctx, id, x)
-	var js []byte
-	if nil == err {
-		// Persist the prepared fact (with its absolute 'expires'),
-		// not the given map.  Otherwise a 'ttl' would start over
-		// every time the location is loaded.
-		fact := s.IdToFact[id]
-		js, err = json.Marshal(&fact)
-	}
+	// Persist the prepared fact (with its absolute 'expires'), not
+	// the given map.  Otherwise a 'ttl' would start over every time
+	// the location is loaded.  ('add' makes the JSON before it changes
+	// anything.)
+	id, js, err := s.add(ctx, id, x)
 	if nil == err {
 		// Write to storage before releasing the lock (as Rem
 		// does).  Otherwise two concurrent writers of one id could
@@ -298,18 +294,26 @@ func (s *IndexedState) Add(ctx *Context, id string, x Map) (string, error) {
 	return id, err
 }
 
-func (s *IndexedState) add(ctx *Context, id string, x Map) (string, error) {
+func (s *IndexedState) add(ctx *Context, id string, x Map) (string, []byte, error) {
 	Log(DEBUG, ctx, "IndexedState.add", "state", s.Name, "factx", x, "id", id)
 	then := time.Now()
 
 	id, fact, err := PrepareFact(ctx, id, x)
 	if err != nil {
-		return id, err
+		return id, nil, err
+	}
+
+	// A fact that cannot be written as JSON (a NaN from Javascript,
+	// say) cannot be stored.  Find that out before the fact is in
+	// memory, where every search that meets it would fail.
+	js, err := json.Marshal(&fact)
+	if err != nil {
+		return id, nil, err
 	}
 
 	rule, err := ExtractRule(ctx, fact, false)
 	if err != nil {
-		return id, err
+		return id, nil, err
 	}
 	// If we are overwriting a rule, remove the patterns of the
 	// stored rule (not those of the new one) from the rule index.
@@ -318,7 +322,7 @@ func (s *IndexedState) add(ctx *Context, id string, x Map) (string, error) {
 	if old, have := s.IdToFact[id]; have {
 		if oldRule, _ = ExtractRule(ctx, old, false); oldRule != nil {
 			if err = s.unindexRule(ctx, id, oldRule); err != nil {
-				return "", err
+				return "", nil, err
 			}
 		}
 	}
@@ -334,7 +338,7 @@ func (s *IndexedState) add(ctx *Context, id string, x Map) (string, error) {
 						s.indexRule(ctx, id, oldRule)
 					}
 				}
-				return "", err
+				return "", nil, err
 			}
 		}
 	}
@@ -359,7 +363,7 @@ func (s *IndexedState) add(ctx *Context, id string, x Map) (string, error) {
 					s.indexRule(ctx, id, oldRule)
 				}
 			}
-			return "", err
+			return "", nil, err
 		}
 	}
 
@@ -373,7 +377,7 @@ func (s *IndexedState) add(ctx *Context, id string, x Map) (string, error) {
 
 	elapsed := time.Now().Sub(then).Nanoseconds()
 	Log(DEBUG, ctx, "IndexedState.add", "state", s.Name, "id", id, "elapsed", elapsed)
-	return id, nil
+	return id, js, nil
 }
 
 // GetRulesPatterns extracts the rule's 'when' pattern.
